@@ -149,7 +149,14 @@ func c18Types(p *Prog, r *Report) {
 		{"proxycore", "ClientConn", "codec", "sync/atomic.Value"},
 	}
 	for _, w := range want {
-		f := p.Field(w.pkg, w.typ, w.field)
+		f := p.FieldOpt(w.pkg, w.typ, w.field)
+		if f == nil {
+			// renamed: the registry is the field of that struct with the concurrency-safe type
+			f = p.fieldByType(w.pkg, w.typ, func(t types.Type) bool { return types.TypeString(t, nil) == w.t })
+		}
+		if f == nil {
+			fatalf("anchor: %s.%s has no field %s (nor a single field of type %s)", w.pkg, w.typ, w.field, w.t)
+		}
 		got := types.TypeString(f.Type(), nil)
 		r.check(got == w.t, rule, w.typ+"."+w.field, p.Pos(f.Pos()), got, fmt.Sprintf("field has type %s, concurrent readers/writers rely on %s", got, w.t))
 	}
